@@ -116,11 +116,7 @@ func materialiseEmbed(path string, f embedFile, huge uint32) {
 	binary.Write(&b, binary.LittleEndian, claimed)
 	dim := 100
 	if f.Kind == "cmds" {
-		d := f.Dim
-		if d == 0 {
-			d = 100
-		}
-		binary.Write(&b, binary.LittleEndian, uint32(d))
+		binary.Write(&b, binary.LittleEndian, uint32(f.Dim))
 	}
 	for i := 0; i < f.Present; i++ {
 		if f.Kind == "cmds" {
@@ -203,7 +199,7 @@ func embedRun(args []string) int {
 				if f0.Claimed < 1000000 && huge != 1<<28 {
 					continue
 				}
-				for _, dim := range []int{100, 3} {
+				for _, dim := range []int{100, 3, 0, 1, 25, 0x40000000, 0x80000000, 0xffffffff} {
 					if dim != 100 && (kind != "cmds" || !f0.Header) {
 						continue
 					}
@@ -340,7 +336,11 @@ func embedRun(args []string) int {
 		case 0:
 			a, b, ev.Guard = nil, nil, "empty"
 		case 1:
-			a, ev.Guard = make([]float32, dim), "zerovec"
+			if r.Intn(2) == 0 {
+				a, ev.Guard = make([]float32, dim), "zerovec"
+			} else {
+				b, ev.Guard = make([]float32, dim), "zerovec"
+			}
 		case 2:
 			b, ev.Guard = mk(dim+1+r.Intn(3)), "mismatch"
 		case 3: // collinear: the rounding-sensitive case
@@ -363,6 +363,17 @@ func embedRun(args []string) int {
 			}
 		}
 		c1, c2 := embedding.CosineSimilarity(a, b), embedding.CosineSimilarity(b, a)
+		if i%4 == 0 { // the same pair through the index API (query a against a one-command index holding b)
+			sc := (&embedding.Index{Dimension: len(a), CmdEmbeddings: [][]float32{b}}).SemanticScores(a)
+			c1 = 0
+			if len(sc) == 1 {
+				c1 = sc[0]
+			}
+			c2 = c1
+			if ev.Guard == "normal" || ev.Guard == "zerovec" {
+				c2 = embedding.CosineSimilarity(a, b) // must agree with the plain function
+			}
+		}
 		ev.Sym = c1 == c2 || (math.IsNaN(c1) && math.IsNaN(c2))
 		switch {
 		case math.IsNaN(c1) || math.IsInf(c1, 0):
